@@ -138,16 +138,16 @@ theorem andThen_done (r : List Eff × List Str × Nat × GenEnd)
 /-! the three invocations of `gen_ca_signed_certificate`, named -/
 
 def pubCall (cfg : Cfg) (env : Env) (host : Str) (tmp : Str) : Call :=
-  genPublicKey cfg.openssl (pubKeyPath (cfg.caCertDir.getD []) host) (cfg.caSigningKeyFile.getD []) []
-    (buildSubject env.subject) (some [host]) none validityDays tmp
+  genPublicKey env.isIp cfg.openssl (pubKeyPath (cfg.caCertDir.getD []) host) (cfg.caSigningKeyFile.getD []) []
+    (buildSubject env.subject) (some [stripBrackets host]) none validityDays tmp
 
 def csrCall (cfg : Cfg) (host : Str) : Call :=
   genCsr cfg.openssl (csrPath (cfg.caCertDir.getD []) host) (cfg.caSigningKeyFile.getD []) []
     (pubKeyPath (cfg.caCertDir.getD []) host)
 
 def signCall (cfg : Cfg) (env : Env) (host : Str) (tmp : Str) : Call :=
-  signCsr cfg.openssl (csrPath (cfg.caCertDir.getD []) host) (certFilePath (cfg.caCertDir.getD []) host)
-    (cfg.caKeyFile.getD []) [] (cfg.caCertFile.getD []) env.serial (some [host]) none validityDays tmp
+  signCsr env.isIp cfg.openssl (csrPath (cfg.caCertDir.getD []) host) (certFilePath (cfg.caCertDir.getD []) host)
+    (cfg.caKeyFile.getD []) [] (cfg.caCertFile.getD []) env.serial (some [stripBrackets host]) none validityDays tmp
 
 /-- one of the three invocations, with some temp name -/
 def IsCertCall (cfg : Cfg) (env : Env) (host : Str) (c : Call) : Prop :=
